@@ -161,8 +161,53 @@ fn apply(b: Builder, op: &Op, serial: i128) -> Result<Builder, reval::Error> {
                 .collect::<Vec<_>>(),
         ),
         Op::Symbol(name, v) => Ok(b.with_symbol(name, Value::Int(*v))),
-        Op::Symbols(items) => b.with_symbols(Symbols::from(items.iter().map(|(n, v)| (n.clone(), Value::Int(*v))).collect::<Vec<_>>())),
+        Op::Symbols(items) => b.with_symbols(symbols_table(items, serial)),
     }
+}
+
+/// A `Symbols` table built through one of its three public ways (From, insert one by one, append in two parts); the
+/// table itself must answer `get` for exactly its names, with the most recent value of each.
+fn symbols_table(items: &[(String, i128)], serial: i128) -> Symbols {
+    let pairs = |xs: &[(String, i128)]| xs.iter().map(|(n, v)| (n.clone(), Value::Int(*v))).collect::<Vec<_>>();
+    match serial % 3 {
+        0 => Symbols::from(pairs(items)),
+        1 => {
+            let mut s = Symbols::default();
+            for (n, v) in items {
+                s.insert(n, Value::Int(*v));
+            }
+            s
+        }
+        _ => {
+            let mut s = Symbols::default();
+            let mid = items.len() / 2;
+            s.append(pairs(&items[..mid]));
+            s.append(pairs(&items[mid..]));
+            s
+        }
+    }
+}
+
+fn check_symbols_table(items: &[(String, i128)], serial: i128) -> Verdict {
+    let t = symbols_table(items, serial);
+    let mut want: BTreeMap<&str, i128> = BTreeMap::new();
+    for (n, v) in items {
+        want.insert(n.as_str(), *v);
+    }
+    for name in SYM_NAMES.iter().copied().chain(items.iter().map(|x| x.0.as_str())) {
+        let ok = match (want.get(name), t.get(name)) {
+            (Some(v), Ok(Value::Int(x))) => *v == *x,
+            (None, Err(reval::Error::InvalidSymbol(n))) => n == name,
+            _ => false,
+        };
+        if !ok {
+            return Err(Issue::new(
+                "builder:symbols-table",
+                format!("a Symbols table built (way {}) from {items:?} answers get({name:?}) with {:?}, expected {:?}", serial % 3, t.get(name), want.get(name)),
+            ));
+        }
+    }
+    Ok(())
 }
 
 fn refusal_of(e: &reval::Error) -> Option<Refusal> {
@@ -192,7 +237,10 @@ fn check_history(ops: &[Op]) -> Verdict {
             Op::Symbol(n, _) => {
                 mentioned_syms.insert(n.clone());
             }
-            Op::Symbols(items) => mentioned_syms.extend(items.iter().map(|x| x.0.clone())),
+            Op::Symbols(items) => {
+                mentioned_syms.extend(items.iter().map(|x| x.0.clone()));
+                check_symbols_table(items, serial)?;
+            }
             _ => {}
         }
         let b = builder.take().unwrap();
@@ -330,7 +378,8 @@ fn op_kind(op: &Op) -> &'static str {
 
 const RULE_NAMES: [&str; 4] = ["r1", "R1", "r 1", ""];
 const FN_NAMES: [&str; 8] = ["f1", "F1", "_f", "if", "key", "f-1", "é", "f1"];
-const SYM_NAMES: [&str; 6] = ["s", "S", "s2", "key", "val", "if"];
+// (symbol names are arbitrary strings to the builder: also spellings with the `:` sigil, blanks and the empty name)
+const SYM_NAMES: [&str; 12] = ["s", "S", "s2", "key", "val", "if", ":s", "s:", " s", "", "::s", ":"];
 
 fn gen_history(bytes: &[u8]) -> Vec<Op> {
     let mut d = Dec::new(bytes);
@@ -421,7 +470,7 @@ fn ops_from_json(j: &serde_json::Value) -> Option<Vec<Op>> {
 
 pub fn run(ctx: &Ctx) {
     ctx.set_rule(
-        "Generated: (1) a name sweep: every reserved word (own copy of the 38-word list), every grammar keyword, reserved words with \
+        "Generated: (0) long histories: 31-130 distinct rule / function / symbol names accepted on one builder through single and batch calls, then each one of them again; (1) a name sweep: every reserved word (own copy of the 38-word list), every grammar keyword, reserved words with \
          a prefix/suffix/upper-cased, ASCII identifiers, `_`, `_a`, `_1`, `_ a`, `_-`, `_(`, `a b`, `a-b`, empty, `1a`, names that lex \
          as literals, non-ASCII identifiers, combining marks, emoji, zero-width characters (exhaustive list), and random Unicode names \
          of length 1-4, each as a single with_function call; (2) histories of 1-12 builder calls (with_rule, with_rules, \
@@ -495,6 +544,61 @@ pub fn run(ctx: &Ctx) {
     );
     ctx.extra("names_excluded_for_unicode_version_skew_in_sweep", json!(skew.load(std::sync::atomic::Ordering::Relaxed)));
 
+    // long histories: N distinct names accepted on one builder (through single and batch calls), then any one of them again
+    let mut long: Vec<Vec<Op>> = vec![];
+    for n in [31usize, 32, 33, 34, 65, 130] {
+        let rule_name = |k: usize| format!("rule {k}");
+        let fn_name = |k: usize| format!("fn{k}");
+        let mut base_rules: Vec<Op> = vec![];
+        let mut base_fns: Vec<Op> = vec![];
+        let mut k = 0;
+        while k < n {
+            // single, single, batch of 3, single, batch of 2, ...
+            let batch = [1usize, 1, 3, 1, 2][k % 5].min(n - k);
+            if batch == 1 {
+                base_rules.push(Op::Rule(rule_name(k)));
+                base_fns.push(Op::Function(fn_name(k)));
+            } else {
+                base_rules.push(Op::Rules((k..k + batch).map(rule_name).collect()));
+                base_fns.push(Op::Functions((k..k + batch).map(fn_name).collect()));
+            }
+            k += batch;
+        }
+        for again in 0..n {
+            for batch in [false, true] {
+                let mut h = base_rules.clone();
+                h.push(if batch { Op::Rules(vec![format!("fresh {n}"), rule_name(again)]) } else { Op::Rule(rule_name(again)) });
+                h.push(Op::Rule(format!("after {n}")));
+                long.push(h);
+            }
+            if again % 3 == 0 {
+                let mut h = base_fns.clone();
+                h.push(Op::Function(fn_name(again)));
+                h.push(Op::Functions(vec![format!("fresh{n}"), fn_name(again)]));
+                long.push(h);
+            }
+        }
+        // symbols: N names, every one registered again later with another value
+        let mut h: Vec<Op> = (0..n).map(|k| Op::Symbol(format!("sym{k}"), k as i128)).collect();
+        h.push(Op::Symbols((0..n).step_by(2).map(|k| (format!("sym{k}"), 1000 + k as i128)).collect()));
+        h.extend((0..n).step_by(3).map(|k| Op::Symbol(format!("sym{k}"), 2000 + k as i128)));
+        long.push(h);
+    }
+    ctx.enumerate(
+        "long-histories",
+        long.len() as u64,
+        true,
+        |i, acc| {
+            acc.cell("hist:long", true);
+            if i % 97 == 0 {
+                acc.sample("hist:long", || format!("{} calls, last two: {:?}", long[i as usize].len(), &long[i as usize][long[i as usize].len() - 2..]));
+            }
+            check_history(&long[i as usize])
+        },
+        |i| ops_to_json(&long[i as usize]),
+        "history",
+    );
+
     let nh = ctx.tier.pick(700_000u64, 7_000_000u64);
     ctx.random(
         "builder-histories",
@@ -531,4 +635,9 @@ pub fn run(ctx: &Ctx) {
 
 pub fn replay(j: &serde_json::Value) -> Option<Verdict> {
     ops_from_json(j).map(|ops| check_history(&ops))
+}
+
+/// Entry point of the `set_diff` fuzz target.
+pub(crate) fn fuzz_bytes(bytes: &[u8]) -> Verdict {
+    check_history(&gen_history(bytes))
 }
